@@ -176,6 +176,55 @@ static void do_set(const char *ptr, int f)
 	value = NULL;
 }
 
+/* the same set with the k-th allocation request of the call failing, k = 0, 1, ... until the call no longer reaches request k:
+ * the call either completes as usual or fails, and then the document is what it was, the value is still the caller's
+ * (and intact), and nothing the call allocated remains */
+static void do_set_faulted(const char *ptr, int f)
+{
+	for (long k = 0; k < 16; k++)
+	{
+		fresh_tree();
+		emit_tree();
+		long live_a = vh_live;
+		value = json_object_new_int(99);
+		json_object *r = root;
+		vh_alloc_arm(k);
+		int rc = f ? json_pointer_setf(&r, value, "%s", ptr) : json_pointer_set(&r, ptr, value);
+		int hit = vh_nalloc > k;
+		const char *site = vh_fail_site;
+		vh_alloc_disarm();
+		if (!hit)
+		{
+			root = r;
+			if (rc != 0)
+				json_object_put(value);
+			value = NULL;
+			break;
+		}
+		ev_begin("fset");
+		ev_bytes("ptr", ptr, strlen(ptr));
+		ev_int("f", f);
+		ev_int("k", k);
+		ev_str("site", site ? site : "");
+		ev_int("ret", rc);
+		ev_bool("rootkept", r == root);
+		dump_nodes("after", r);
+		json_object *back = NULL;
+		ev_bool("same", rc == 0 && json_pointer_get(r, ptr, &back) == 0 && back == value);
+		root = r;
+		int intact = 1;
+		if (rc != 0)
+		{
+			intact = json_object_get_int(value) == 99;
+			json_object_put(value);
+		}
+		value = NULL;
+		ev_bool("intact", intact);
+		ev_int("leak", rc != 0 ? (int)(vh_live - live_a) : 0);
+		ev_end();
+	}
+}
+
 /* ---- the fixed trees of MCPointer.tla */
 static void spec_reset(void)
 {
@@ -428,7 +477,12 @@ static int drive(int start, int nexec, int nops)
 				do_get(p, (int)vh_below(2));
 			else if (p[0])
 			{
-				do_set(p, (int)vh_below(2));
+			{
+				int f = (int)vh_below(2);
+				do_set(p, f);
+				if (vh_below(3) == 0)
+					do_set_faulted(p, f);
+			}
 				fresh_tree();
 				emit_tree();
 			}
